@@ -35,16 +35,105 @@ def _names_kw(call):
     return [a.val for a in names.args]
 
 
+IC_KEYS = ('density', 'velocity', 'pressure', 'symmetry')
+
+
+class Scenario:
+    """One way of calling the constructor: which of the solver's parameters are given explicitly.  Tests `'<name>' in kwargs`
+    are decided, dictionary copies / stores / lookups with literal keys are resolved, so that every attribute is a plain
+    expression in the parameters and in the four entries of the initial-conditions mapping."""
+
+    def __init__(self, b, keys, given):
+        self.b, self.keys, self.given, self.memo = b, set(keys), set(given), {}
+
+    def __call__(self, n):
+        if n is None:
+            return None
+        if n.nid in self.memo:
+            return self.memo[n.nid]
+        self.memo[n.nid] = n            # cycles (loop-carried values) resolve to themselves
+        r = self._res(n)
+        self.memo[n.nid] = r
+        return r
+
+    def truth(self, c, depth=0):
+        """Truth of a test built from `'<parameter>' in kwargs` (None: something else)."""
+        if c is None or depth > 6:
+            return None
+        if c.kind == 'cmp' and c.val in ('in', 'not in') and len(c.args) == 2 and c.args[0].kind == 'const' \
+                and c.args[0].val in self.keys:
+            return (c.args[0].val in self.given) == (c.val == 'in')
+        if c.kind == 'unop' and c.val == 'not' and c.args:
+            t = self.truth(c.args[0], depth + 1)
+            return None if t is None else not t
+        if c.kind == 'bool' and c.args:
+            ts = [self.truth(a, depth + 1) for a in c.args]
+            if c.val == 'and':
+                return False if any(t is False for t in ts) else (True if all(t is True for t in ts) else None)
+            if c.val == 'or':
+                return True if any(t is True for t in ts) else (False if all(t is False for t in ts) else None)
+        if c.kind == 'mcall' and c.val in ('__contains__', 'has_key') and len(c.args) == 2 and c.args[1].kind == 'const' \
+                and c.args[1].val in self.keys:
+            return c.args[1].val in self.given
+        return None
+
+    def _res(self, n):
+        b = self.b
+        if n.kind == 'phi' and len(n.args) == 3:
+            t = self.truth(n.args[0])
+            if t is not None:
+                return self(n.args[1] if t else n.args[2])
+        if n.kind == 'sub' and len(n.args) == 2 and n.args[1].kind == 'const':
+            base, k = self(n.args[0]), n.args[1].val
+            for _ in range(40):
+                if base.kind == 'store' and base.args[1].kind == 'const':
+                    if base.args[1].val == k:
+                        return self(base.args[2])
+                    base = self(base.args[0])
+                    continue
+                if base.kind == 'call' and base.val in ('builtins.dict', 'copy.copy', 'copy.deepcopy') and len(base.args) == 1:
+                    base = self(base.args[0])
+                    continue
+                if base.kind == 'mcall' and base.val == 'copy' and base.args:
+                    base = self(base.args[0])
+                    continue
+                if base.kind == 'dict' and k in list(base.val):
+                    return self(base.args[list(base.val).index(k)])
+                break
+            return b.mk('sub', args=[base, n.args[1]])
+        if n.kind in ('param', 'const', 'input', 'obj', 'closure', 'kwargs') or not n.args and not n.kw:
+            return n
+        args = [self(a) for a in n.args]
+        kw = {k: self(v) for k, v in n.kw.items()} if n.kw else None
+        if all(a is o for a, o in zip(args, n.args)) and (not n.kw or all(kw[k] is n.kw[k] for k in kw)):
+            return n
+        m = b.mk(n.kind, n.val, args, kw)
+        m.origin = n.origin
+        return m
+
+
 def fields(model, res, prop=PROP, rule=RULE):
     cls = model.get_class(CLS)
+    names = [k for k in (model.parameters_keys(cls) or []) if k in ('rho0', 'u0', 'geometry')]
+    import itertools
+    scenarios = [g for r in range(len(names) + 1) for g in itertools.combinations(names, r)]
+    if len(scenarios) < 2:
+        raise AnalysisError('NohBlackBoxEos no longer documents rho0 / u0 / geometry as parameters')
+    for given in scenarios:
+        _fields_for(model, res, cls, given, prop, rule)
+
+
+def _fields_for(model, res, cls, given, prop, rule):
     runm = cls.find_method('_run')
     if runm is None:
         raise AnalysisError('NohBlackBoxEos._run vanished')
     b = Builder(model)
     b.frame = Frame(None, cls.module, {}, None)
     eos = b.mk('input', 'eos')
-    ic = b.mk('input', 'ic')
-    objn = b.instantiate(cls, args=[eos, ic], symbolic=True, kw={'**': b.mk('kwargs')})
+    ic = b.mk('dict', list(IC_KEYS), [b.mk('param', 'ic:' + k) for k in IC_KEYS])
+    objn = b.instantiate(cls, args=[eos, ic], symbolic=True, kw={k: b.mk('param', k) for k in given})
+    sc = Scenario(b, model.parameters_keys(cls) or [], given)
+    tag = 'explicit: %s' % (', '.join(given) or 'none')
     h = b.heap[objn.val.oid]
     rfs = [v for k, v in h.items() if v is not None and v.kind == 'obj' and getattr(v.val, 'cls', None) is not None
            and v.val.cls.find_method('F') is not None and v.val.cls.find_method('F_prime') is not None]
@@ -73,7 +162,7 @@ def fields(model, res, prop=PROP, rule=RULE):
     ev = NFEval(list(model.parameters_keys(cls) or []))
 
     def key(n):
-        v = ev.nf(n)
+        v = ev.nf(sc(n))
         if v is NAN or isinstance(v, (PW, Struct)):
             return None, v
         return v.key(), v
@@ -112,7 +201,7 @@ def fields(model, res, prop=PROP, rule=RULE):
         a = byname[f]
         if a.kind != 'call' or a.val != 'numpy.where' or len(a.args) != 3:
             raise AnalysisError("NohBlackBoxEos._run: field '%s' is not a numpy.where of the two states" % f)
-        where[f] = a.args
+        where[f] = [sc(x) for x in a.args]
 
     def ob(ok, detail, msg, at=None, sample=None):
         res.obligations += 1
@@ -120,12 +209,18 @@ def fields(model, res, prop=PROP, rule=RULE):
         res.nontrivial += 1
         if ok:
             res.discharged += 1
-            res.sample({'rule': rule, 'site': 'black-box Noh returned states', 'identity': sample or detail}, limit=60)
+            res.sample({'rule': rule, 'site': 'black-box Noh returned states (%s)' % tag, 'identity': sample or detail}, limit=60)
         else:
             o = at.origin[1] if at is not None and at.origin else None
-            res.add(Finding(prop, rule, runm.module.relpath, runm.qualname, detail, msg,
+            res.add(Finding(prop, rule, runm.module.relpath, runm.qualname, '%s [%s]' % (detail, tag), msg + ' [constructor called with %s]' % tag,
                             line=getattr(o, 'lineno', runm.node.lineno), construct=src_of(o)[:120] if o is not None else 'def _run'))
 
+    # -- a parameter given explicitly is the value the solver uses
+    for nm in given:
+        v = sc(h.get(nm))
+        ob(v is not None and v.kind == 'param' and v.val == nm, "explicit parameter '%s' is the value used" % nm,
+           "NohBlackBoxEos.__init__: the documented parameter %s, given explicitly, is not the value the solver ends up with (it is "
+           "`%s`): the keyword is accepted and silently ignored" % (nm, (key(h.get(nm))[0] or '?')[:60]))
     # -- ahead of the shock
     one = b.const(1)
     base = b.mk('binop', '-', [one, b.mk('binop', '*', [rh['u_0'], b.mk('binop', '/', [t, r])])])
@@ -189,7 +284,7 @@ def fields(model, res, prop=PROP, rule=RULE):
         kl, _ = key(l)
         kr, vr = key(rr)
         kt, vt = key(t)
-        want = None if sol is None else ev.mul(ev.nf(b.mk('sub', args=[_find_solution(where['density'][1]), b.const(2)])), vt)
+        want = None if sol is None else ev.mul(ev.nf(sc(b.mk('sub', args=[_find_solution(where['density'][1]), b.const(2)]))), vt)
         if kl != key(r)[0] or want is None or not ev.is_zero(ev.add(vr, want, -1)):
             okp = False
     ob(okp, 'shock position is D t', "NohBlackBoxEos._run: the two states are not switched at r = D t with D component 2 of "
@@ -201,3 +296,46 @@ def _find_solution(n):
     if n.kind == 'sub':
         return n.args[0]
     raise AnalysisError('NohBlackBoxEos._run: shocked density is not a component of the Newton solution')
+
+
+def geometry_link(model, res, prop='C07', rule='C07.blackbox-geometry'):
+    """C07: "the general class with that geometry" -- whatever way the constructor is called, the symmetry exponent the
+    jump conditions and the pre-shock profile use is the documented `geometry` parameter minus one."""
+    import itertools
+    cls = model.get_class(CLS)
+    names = [k for k in (model.parameters_keys(cls) or []) if k in ('rho0', 'u0', 'geometry')]
+    if 'geometry' not in names:
+        raise AnalysisError('NohBlackBoxEos no longer documents geometry as a parameter')
+    init = cls.find_method('__init__')
+    for given in [g for r in range(len(names) + 1) for g in itertools.combinations(names, r)]:
+        b = Builder(model)
+        b.frame = Frame(None, cls.module, {}, None)
+        eos = b.mk('input', 'eos')
+        ic = b.mk('dict', list(IC_KEYS), [b.mk('param', 'ic:' + k) for k in IC_KEYS])
+        objn = b.instantiate(cls, args=[eos, ic], symbolic=True, kw={k: b.mk('param', k) for k in given})
+        sc = Scenario(b, model.parameters_keys(cls) or [], given)
+        h = b.heap[objn.val.oid]
+        rfs = [v for v in h.values() if v is not None and v.kind == 'obj' and getattr(v.val, 'cls', None) is not None
+               and v.val.cls.find_method('F') is not None]
+        if len(rfs) != 1 or 'symmetry' not in b.heap[rfs[0].val.oid]:
+            raise AnalysisError('NohBlackBoxEos.__init__: residual-function object with a symmetry attribute not found')
+        ev = NFEval(list(model.parameters_keys(cls) or []))
+        lhs = ev.nf(sc(b.mk('binop', '+', [b.heap[rfs[0].val.oid]['symmetry'], b.const(1)])))
+        rhs = ev.nf(sc(h.get('geometry')))
+        lhs2 = ev.nf(sc(b.mk('binop', '+', [h.get('symmetry'), b.const(1)])))
+        res.obligations += 1
+        res.evaluations += 1
+        res.nontrivial += 1
+        ok = not any(x is NAN or isinstance(x, (PW, Struct)) for x in (lhs, rhs, lhs2)) \
+            and ev.is_zero(ev.add(lhs, rhs, -1)) and ev.is_zero(ev.add(lhs2, rhs, -1))
+        tag = ', '.join(given) or 'none'
+        if ok:
+            res.discharged += 1
+            res.sample({'rule': rule, 'class': 'NohBlackBoxEos', 'explicit parameters': tag, 'identity': 'symmetry + 1 == geometry'}, limit=20)
+        else:
+            res.add(Finding(prop, rule, init.module.relpath, init.qualname, 'symmetry + 1 == geometry [explicit: %s]' % tag,
+                            "NohBlackBoxEos.__init__ (constructor called with explicit %s): the symmetry exponent used by the jump "
+                            "conditions and by the pre-shock density (%s) is not the documented parameter geometry minus one (%s): the general "
+                            "class with geometry = g does not solve the same problem as the wrapper class of that geometry"
+                            % (tag or 'no parameters', getattr(lhs, 'key', lambda: '?')()[:60], getattr(rhs, 'key', lambda: '?')()[:60]),
+                            line=init.node.lineno, construct='def __init__'))
